@@ -39,6 +39,25 @@ pub unsafe fn alloc(layout: Layout) -> *mut u8 {
     p
 }
 
+pub unsafe fn alloc_zeroed(layout: Layout) -> *mut u8 {
+    let p = alloc(layout);
+    if !p.is_null() {
+        std::ptr::write_bytes(p, 0, layout.size());
+    }
+    p
+}
+
+/// `realloc` = tracked alloc of the new size + copy + tracked dealloc (always relocates).
+pub unsafe fn realloc(ptr: *mut u8, layout: Layout, new_size: usize) -> *mut u8 {
+    let new_layout = Layout::from_size_align_unchecked(new_size, layout.align());
+    let p = alloc(new_layout);
+    if !p.is_null() {
+        std::ptr::copy_nonoverlapping(ptr, p, layout.size().min(new_size));
+        dealloc(ptr, layout);
+    }
+    p
+}
+
 pub unsafe fn dealloc(ptr: *mut u8, layout: Layout) {
     let entry = LEDGER.with(|l| l.borrow_mut().live.remove(&(ptr as usize)));
     match entry {
